@@ -236,20 +236,20 @@ def reviewedSources : List (String × String) := [
   ("clock:cmd/classical.go:classical:304a237a3599#1", "start / date of the support log (log file or stderr), not a result: log output is excluded from the comparison"),
   ("clock:cmd/classical.go:writeLogClassical:3f05ebd3c590#1", "start / date of the support log (log file or stderr), not a result: log output is excluded from the comparison"),
   ("ncpu:cmd/comparetrees.go:compareTreesCmd:013217eae3c4#1", "number of CPUs bounds / defaults the thread count: a configuration, results do not depend on it (C11; threaded templates compared up to record order)"),
-  ("goroutine:cmd/edgetrees.go:edgeTreesCmd:go#1", "goroutine result order: worker pools / producers of C11 (bodies are C11 obligations); per-tree records carry their id (threaded templates compared up to record order)"),
-  ("goroutine:cmd/edgetrees.go:edgeTreesCmd:go#2", "goroutine result order: worker pools / producers of C11 (bodies are C11 obligations); per-tree records carry their id (threaded templates compared up to record order)"),
-  ("goroutine:cmd/roccurve.go:roccurveCmd:go#1", "goroutine result order: worker pools / producers of C11 (bodies are C11 obligations); per-tree records carry their id (threaded templates compared up to record order)"),
-  ("goroutine:cmd/roccurve.go:roccurveCmd:go#2", "goroutine result order: worker pools / producers of C11 (bodies are C11 obligations); per-tree records carry their id (threaded templates compared up to record order)"),
-  ("goroutine:cmd/roccurve.go:roccurveCmd:go#3", "goroutine result order: worker pools / producers of C11 (bodies are C11 obligations); per-tree records carry their id (threaded templates compared up to record order)"),
-  ("goroutine:io/utils/readtrees.go:ReadMultiTrees:go#1", "goroutine result order: worker pools / producers of C11 (bodies are C11 obligations); per-tree records carry their id (threaded templates compared up to record order)"),
-  ("goroutine:support/fbp.go:FBP:go#1", "goroutine result order: worker pools / producers of C11 (bodies are C11 obligations); per-tree records carry their id (threaded templates compared up to record order)"),
-  ("goroutine:support/fbp.go:FBP:go#2", "goroutine result order: worker pools / producers of C11 (bodies are C11 obligations); per-tree records carry their id (threaded templates compared up to record order)"),
-  ("goroutine:support/tbe.go:TBE:go#1", "goroutine result order: worker pools / producers of C11 (bodies are C11 obligations); per-tree records carry their id (threaded templates compared up to record order)"),
-  ("goroutine:support/tbe.go:TBE:go#2", "goroutine result order: worker pools / producers of C11 (bodies are C11 obligations); per-tree records carry their id (threaded templates compared up to record order)"),
-  ("goroutine:tree/algo.go:Compare:go#1", "goroutine result order: worker pools / producers of C11 (bodies are C11 obligations); per-tree records carry their id (threaded templates compared up to record order)"),
-  ("goroutine:tree/algo.go:Compare:go#2", "goroutine result order: worker pools / producers of C11 (bodies are C11 obligations); per-tree records carry their id (threaded templates compared up to record order)"),
-  ("goroutine:tree/algo.go:CompareWeighted:go#1", "goroutine result order: worker pools / producers of C11 (bodies are C11 obligations); per-tree records carry their id (threaded templates compared up to record order)"),
-  ("goroutine:tree/algo.go:CompareWeighted:go#2", "goroutine result order: worker pools / producers of C11 (bodies are C11 obligations); per-tree records carry their id (threaded templates compared up to record order)"),
+  ("goroutine:cmd/edgetrees.go:edgeTreesCmd:09feb6e48e62#1", "feeder: sends the branches (with their index in Edges() order) into a channel, or the single deepest one; closes it"),
+  ("goroutine:cmd/edgetrees.go:edgeTreesCmd:b19aa2b52636#1", "workers, one record per inner BRANCH (not per tree), NO identifier in the record: with -o prefix each record goes to its own file named by the branch index; on the standard output a single worker is started (bce88dc), so the records come in branch order. Templates edgetrees-stdout-t1/2/8, -text-t2/8, -prefix-t8 must be byte-identical"),
+  ("goroutine:cmd/roccurve.go:roccurveCmd:4dca40930559#1", "feeder: the branches of the input tree in Edges() order, then close"),
+  ("goroutine:cmd/roccurve.go:roccurveCmd:19216fcf4960#1", "workers: one (found, length, support, pvalue) tuple per inner branch into a channel; the consumer only increments integer counters per threshold (commutative), the table is written after the last result: no record order is observable (template roccurve with -t 1/3/8, byte-identical)"),
+  ("goroutine:cmd/roccurve.go:roccurveCmd:84b8c3268ba0#1", "closer: waits for the workers, closes the result channel"),
+  ("goroutine:io/utils/readtrees.go:ReadMultiTrees:a11ae6a04cd1#1", "producer: parses the trees of the file one after the other and sends them with increasing Id: file order, a single goroutine"),
+  ("goroutine:support/fbp.go:FBP:c94cbae84d45#1", "workers: per bootstrap tree, send the indices of the reference branches found; the consumer increments one integer counter per branch (commutative); supports are computed after the channel is closed: order not observable (templates support-fbp/classical -t 1/3/8, byte-identical)"),
+  ("goroutine:support/fbp.go:FBP:74626dd7456e#1", "closer: waits for the workers, closes the channel of found branches"),
+  ("goroutine:support/tbe.go:TBE:1826107bfbbf#1", "feeder, once per bootstrap tree (the trees themselves are handled sequentially, in file order): the reference branches into a channel"),
+  ("goroutine:support/tbe.go:TBE:81287eead8a3#1", "workers: each reference branch is taken by exactly one worker per bootstrap tree and only its own support cell is incremented, so every floating-point sum is accumulated in bootstrap-file order whatever the schedule; shared counters under a mutex feed the log only (templates support-tbe/booster -t 1/3/8 byte-identical; the --moved-taxa / --per-branches tables are compared without their Date line, template support-tbe-moved)"),
+  ("goroutine:tree/algo.go:Compare:3d0d12c86811#1", "workers: one BipartitionStats per compared TREE, carrying the tree Id, in completion order; cmd/comparetrees.go prints id-carrying records (default, --binary: threaded templates compared up to record order) or collects and sorts by id (--rf, site rfLines)"),
+  ("goroutine:tree/algo.go:Compare:947ece0fc3e4#1", "closer: waits for the workers, closes the stats channel"),
+  ("goroutine:tree/algo.go:CompareWeighted:dddd5128146b#1", "workers: one weighted stats record per compared TREE, carrying the tree Id, in completion order; printed with its id (template compare-trees-weighted, compared up to record order)"),
+  ("goroutine:tree/algo.go:CompareWeighted:947ece0fc3e4#1", "closer: waits for the workers, closes the stats channel"),
   ("clock:cmd/root.go:RootCmd:ab7a011c28c6#1", "clock read only under `if seed == -1` (no seed given): outside the property (precondition seed ≠ -1)"),
   ("seed:cmd/root.go:RootCmd:3ef41f0bea2f#1", "rand.Seed(seed) in PersistentPreRun: the single global source is seeded from --seed before every command"),
   ("ncpu:cmd/root.go:init:013217eae3c4#1", "number of CPUs bounds / defaults the thread count: a configuration, results do not depend on it (C11; threaded templates compared up to record order)"),
@@ -287,6 +287,17 @@ def seedSites : List Gen.C18Sites.Site := Gen.C18Sites.sources.filter (·.kind =
 /-- clock reads that can reach the seed: those of cmd/root.go -/
 def clockSeedSites : List Gen.C18Sites.Site :=
   Gen.C18Sites.sources.filter (fun s => s.kind == "clock" && s.file == "cmd/root.go")
+
+/-- the commands whose code reads the thread count (`rootCpus`, the value of -t): file of package cmd,
+    command path, and the run template that must exist with -t ≥ 2 -/
+def threadCommands : List (String × String × String) := [
+  ("cmd/booster.go", "compute support booster", "support-booster"),
+  ("cmd/booster.go", "compute support tbe", "support-tbe"),
+  ("cmd/classical.go", "compute support classical", "support-classical"),
+  ("cmd/classical.go", "compute support fbp", "support-fbp"),
+  ("cmd/comparetrees.go", "compare trees", "compare-trees-tips"),
+  ("cmd/edgetrees.go", "compute edgetrees", "edgetrees-stdout-t8"),
+  ("cmd/roccurve.go", "compute roccurve", "roccurve")]
 
 def staleProofs : List String :=
   provedSiteKeys.filter (fun k => !((coreSites.map (·.key)).contains k)) ++
